@@ -3,7 +3,7 @@ sys.path.insert(0, os.path.dirname(os.path.dirname(os.path.abspath(__file__))))
 import mmo_overlay
 
 ID = "C19"
-N_QUICK = 400
+N_QUICK = 300
 N_THOROUGH = 8000
 MODEL_SHOW = "show"
 DISAGREE_IS_VIOLATION = True   # dumps are exactly the state the property fixes; results are compared by membership
@@ -22,7 +22,13 @@ _desc = mmo_overlay.describe(ID)
 
 RULE = ("exhaustive: every sequence of length <= 3 (quick) / 4 (thorough) over a 9-symbol alphabet (refresh of two services, "
         "creation under two configurations and two services, end of the 1st/2nd created scene, loss of service 1, "
-        "12 s + timer tick) followed by a creation, a request and an allocation; random: 6-60 ops generated while executing "
+        "12 s + timer tick) followed by a creation, a request and an allocation; hole patterns, exhaustive in one configuration: "
+        "k = 2/3/4 initial scenes, then every sequence of length <= 5/5/4 (quick) resp. 8/7/6 (thorough) over {create, end the scene "
+        "on line j} that never ends an empty line, followed by two creations and a request (holes of different ages coexist in "
+        "every possible way); hole patterns, random (every 4th random case): 1-3 configurations x 3-6 scenes on 2-3 services, "
+        "then ends of the lowest/highest/any line biased to one configuration at a time, creations, bursts (end a random subset, "
+        "refill part), service losses and four-strike expiries that free many lines at once followed by creations, two final "
+        "creations per configuration; random: 6-60 ops generated while executing "
         "on the real manager (an AllocScene result is fed back as a later OnSceneCreateSucc, in any order, also after the "
         "service was lost): keep-alives with scene counts 0..7000 incl. ties, the cap 5000 and negatives, allocations, "
         "creations (also on unknown services; ~4% violate the guard by reusing an id or using id 0), ends of live (low "
